@@ -87,6 +87,12 @@ def long_family(tier):
         out.append('형... 항. ' + loop_program(K) + ' 항.')
     out.append(loop_program(0))
     out.append('형.♥ 형.♥ 형.♥ ' + loop_program(0))
+    # loops whose values explode (repeated squaring, factorial-like growth): the work of the optimizer must stay
+    # bounded by the text here too
+    out.append('형.. 흑...♥ 하앗... 항...♥')                    # x -> x*x, 100 times
+    out.append('형... 흑...💕 흑... 하앗... 하앗... 항...💕')      # x -> x^3
+    out.append('형.. 형... 흡... 흑...♥ 하앗... 항...♥')          # (1/3)^(2^k): exploding denominators
+    out.append('형... 항. ' + '형.. 흑...♥ 하앗... 항...♥' + ' 항.')
     # counting down in the pre-executed part, values stay small, many distinct labels
     out.append(' '.join(loop_program(120).replace('💕', h) for h in P.HEARTS[:11]))
     return out
